@@ -219,6 +219,11 @@ def render_inner(tokens):
     return ' '.join(t.s for t in tokens if t.k != 'M')
 
 
+def restrict_no_nl(gen):
+    r = getattr(gen, 'str_restrict', None)
+    return r is not None
+
+
 def gen_field(cs, gen, q, depth=0):
     """one replacement field '{expr[=][!c][:spec]}' of an f-string quoted with q"""
     inner_q = ['"'] if q[0] == "'" else ["'"]
@@ -248,6 +253,18 @@ def gen_field(cs, gen, q, depth=0):
         text = 'x'
     if q[0] in text:
         text = 'x'
+    if len(q) == 3 and cs.bool(36) and not (restrict_no_nl(gen)):
+        # inside a triple-quoted f-string a replacement field may span lines: line breaks after the brace, between the
+        # tokens of the expression and before the closing brace (in the full-lexer build they are tokens of their own)
+        j = cs.choice(3)
+        if j == 0 or ' ' not in text:
+            text = NL + cs.pick(['', ' ', '    ']) + text + (NL if cs.bool() else '')
+        elif j == 1:
+            i = text.index(' ')
+            text = text[:i] + NL + text[i:]
+        else:
+            text = text + NL
+        gen.feat('fstring_field_spans_lines')
     s = '{'
     # (`{{` is a literal brace only at the top level of the literal; inside a format spec it opens a nested field whose
     # expression starts with a brace display, so the separating blank is optional there)
